@@ -102,7 +102,7 @@ theorem Query_Posting_model (cur : String → Bool) (cfg : BalCfg) (st : journal
 example :
     let q : journal.Query := { Select := none, Where := none, Valuation := ⟨"CHF", true⟩ }
     let b : posting.Posting := ⟨⟨0⟩, 10, 25, accountGo ⟨["Assets", "A"]⟩, accountGo ⟨["Income", "B"]⟩, ⟨"USD", false⟩⟩
-    (match journal.Query.Into.Posting (journal.Query.Into.init q) ⟨⟨0⟩, 7, "x", [b], []⟩ b with
+    (match journal.Query.Into.Posting (journal.Query.Into.init q) ⟨⟨0⟩, 7, "x", [b], none⟩ b with
       | .ok (st, none) => st.c.map (fun e => (e.1.Date, e.1.Account.name, e.1.Commodity.name, e.2))
       | _ => []) = [(7, "Assets:A", "USD", 25)] := by decide +kernel
 
